@@ -97,6 +97,10 @@ func run(c *hlib.Ctx) {
 	runRealRoots(c, n)
 	runLength(c, n)
 	runPeaked(c, n)
+	runScov(c, n)
+	runScaledResiduals(c, n)
+	runRotations(c, n)
+	runEig2(c, n)
 }
 
 func emit(c *hlib.Ctx, m mode, kind string, args string, impl func() string) {
